@@ -16,3 +16,15 @@ int dogo (string a) { VL ("say dogo"); "/c05/gen/t"->gobody (); return 1; }
 int gocmd () { return command ("go"); }
 // message() to an interactive: do_message() applies receive_message(); the program under test supplies the body
 void receive_message (string c, string m) { "/c05/gen/t"->msgbody (); }
+// a command nobody handles while the notify_fail() function pointer belongs to a DESTRUCTED object (installed by prep() of
+// the case): notify_no_command() -> safe_call_function_pointer() raises "Owner … destructed" BEFORE any frame is pushed under
+// its recovery point; afterwards this function must still be running as this object
+int dpre, dpost;
+int balanced () { return dpre == dpost; }
+int deadcmd () {
+  dpre++;
+  command ("xyzzy");
+  dpost++;      // (never reached when the recovery point handed control back with somebody else's pc)
+  if (this_object () != find_object ("/c05/user")) VL ("say back co-changed");
+  return 1;
+}
